@@ -317,6 +317,15 @@ fn run_history(args: &Args, hist: u64, seed: u64, n_ops: u64, out: &Mutex<Out>) 
         let after = snapshot(&sys);
         emit_cases(&sys, &mut it, &before, &after, &json!({"op": "setup", "step": i}), None, hist, out);
     }
+    if hist % 3 == 1 {
+        // (aggregation thresholds 3 / 2) the leaf that rolls its key below holds aggregated ROAs: they must move to the
+        // new key at activation like every other product
+        let before = snapshot(&sys);
+        let r = sys.routes_update("d", &["10.4.0.0/24 => 64516", "10.4.1.0/24 => 64516", "10.4.2.0/24 => 64516", "10.5.0.0/24 => 64517"], &[]);
+        let after = snapshot(&sys);
+        if let Err(e) = &r { *out.lock().unwrap().err_hist.entry(format!("scripted roa_add_many d: {}", e.to_string().chars().take(120).collect::<String>())).or_default() += 1; }
+        emit_cases(&sys, &mut it, &before, &after, &json!({"op": "roa_add_many", "ca": "d", "scripted": true, "aggregated": true}), None, hist, out);
+    }
     // scripted prelude in a quarter of the histories: a complete key roll of the leaf "d" (whose class name
     // is mapped in every second history), so that the revocation path is always exercised
     if hist % 4 == 1 || hist % 4 == 2 {
